@@ -86,6 +86,8 @@ example : let c : Collection := .recordingSet
 /-! ### the link between the executable check and the hypothesis -/
 theorem C01_wf_of_wfB (c : Collection) (h : wfB c = true) : WF c := wf_of_wfB c h
 example : wfB exEval = true := wfB_exEval
+/-- and conversely: `wfB` decides `WF` -/
+theorem C01_wfB_iff (c : Collection) : wfB c = true ↔ WF c := wfB_iff c
 
 /-! ### the general theorem -/
 /-- Loading (under `ld`) what was saved (under `sd`) gives the collection back with every
